@@ -266,6 +266,20 @@ Proof.
     try (intros Hc; vm_compute in Hc; apply Hc; reflexivity).
 Qed.
 
+(* ---- the executable judgement of the correspondence check is sound for the model, and transfers: whenever the
+   implementation's output agrees with the model's on a case, the judgement accepts it (for EVERY case, not only the
+   ones that were run).  Statements about coq/Check; proofs in coq/Proofs/Judge*.v ---- *)
+From BEI Require Check.C18c Proofs.JudgeC18P.
+Theorem C18_judgement_sound : forall m ra eps steps, JudgeC18P.fresh_mod m -> (0 <= eps)%Q -> JudgeC18P.msteps_wf steps -> JudgeC18P.radial_wf m steps -> JudgeC18P.lerp_wf m steps -> C18c.ok (C18c.umod m ra eps steps, C18c.rmod (C18c.model_steps ra m steps)) = 0%Z.
+Proof. exact JudgeC18P.C18_judgement_sound. Qed.
+
+Theorem C18_judgement_transfer_exact : forall m ra steps o, JudgeC18P.fresh_mod m -> JudgeC18P.msteps_wf steps -> JudgeC18P.radial_wf m steps -> JudgeC18P.lerp_wf m steps -> C18c.agree (C18c.umod m ra 0 steps, o) = true -> C18c.ok (C18c.umod m ra 0 steps, o) = 0%Z.
+Proof. exact JudgeC18P.C18_judgement_transfer_exact. Qed.
+
+Theorem C18_uexp_judgement_transfer : forall ex ey ez steps o, C18c.agree (C18c.uexp ex ey ez steps, o) = true -> C18c.ok (C18c.uexp ex ey ez steps, o) = 0%Z.
+Proof. exact JudgeC18P.C18_uexp_transfer. Qed.
+
+
 Print Assumptions C18_numeric_dim.
 Print Assumptions C18_negate_axes.
 Print Assumptions C18_negate_dim.
@@ -318,3 +332,6 @@ Print Assumptions C18_accumulate_absent.
 Print Assumptions C18_accumulate_idle.
 Print Assumptions C18_accumulate_fired.
 Print Assumptions C18_accumulate_running_sum.
+Print Assumptions C18_judgement_sound.
+Print Assumptions C18_judgement_transfer_exact.
+Print Assumptions C18_uexp_judgement_transfer.
